@@ -48,6 +48,7 @@ type FuncContract struct {
 	Ensures  []Clause
 	Loops    map[int][]Clause
 	Ats      []AtClause
+	Deferred []AtClause // "deferred <callee> [Cnn] label": function literals handed to <callee> run later (see deferredClosures)
 	NoCalls  []AtClause // "nocall <callee> [Cnn] label": the function itself never calls <callee> (a frame condition)
 	Witness  []LetDef // named entry-state terms whose model values feed the counterexample replay
 	Locals   []QVar   // declared source-level locals (name, type): enables rename-tolerant resolution
@@ -124,7 +125,7 @@ func NewSpecs() *Specs {
 	return &Specs{Funcs: map[string]*FuncContract{}, Spec: map[string]*SpecFunc{}, Axioms: map[string]*Axiom{}, Ghost: map[string]*GhostVar{}, Consts: map[string]string{}}
 }
 
-var kwRe = regexp.MustCompile(`^(func|iface|spec|macro|axiom|lemma|ghost|effectfree|property|requires|ensures|loop|let|trusted|pure|inline|noinline|safe|uses|modifies|noverify|noeffects|at|sets|local|reveals|opaque|witness|assumes|nocall|trustcallees)\b`)
+var kwRe = regexp.MustCompile(`^(func|iface|spec|macro|axiom|lemma|ghost|effectfree|property|requires|ensures|loop|let|trusted|pure|inline|noinline|safe|uses|modifies|noverify|noeffects|at|sets|local|reveals|opaque|witness|assumes|nocall|trustcallees|deferred)\b`)
 
 // LoadFile parses one contract file. pkgPath is the import path used for
 // unqualified function names ("" for .spec files, which use full paths).
@@ -369,6 +370,26 @@ func (s *Specs) LoadFile(path, pkgPath string) error {
 				c.Label = "nocall" + strconv.Itoa(len(cur.NoCalls)+1)
 			}
 			cur.NoCalls = append(cur.NoCalls, AtClause{Callee: fs[0], C: c})
+		case "deferred":
+			if cur == nil {
+				return fail(l, "deferred outside func block")
+			}
+			fs := strings.Fields(rest)
+			if len(fs) < 1 {
+				return fail(l, "expected: deferred <callee> [[Cnn]] [label]")
+			}
+			c := Clause{File: path, Line: l.line, Src: "a function literal handed to " + fs[0] + " runs later: what it captured by reference keeps its value"}
+			for _, f := range fs[1:] {
+				if m := regexp.MustCompile(`^\[(C[0-9]+)\]$`).FindStringSubmatch(f); m != nil {
+					c.Prop = m[1]
+				} else {
+					c.Label = strings.TrimSuffix(f, ":")
+				}
+			}
+			if c.Label == "" {
+				c.Label = "deferred" + strconv.Itoa(len(cur.Deferred)+1)
+			}
+			cur.Deferred = append(cur.Deferred, AtClause{Callee: fs[0], C: c})
 		case "noeffects":
 			cur.NoEffects = true
 		case "trustcallees":
